@@ -1,5 +1,6 @@
 /- driver family `kern`: kernel ports evaluated in IEEE double; floats travel as bit patterns -/
 import MagpyVerif.Model.Kernels
+import MagpyVerif.Model.Cylinder
 import MagpyVerif.Gen.Const
 import Driver.Parse
 
@@ -74,6 +75,16 @@ def run : P String := do
       let d ← v3; let p ← v3; let x ← v3
       let m := cuboidMasks d p x
       pure s!"{m.inside} {m.general}"
+  | "cylinder" => do
+      let f ← field; let d ← flt; let h ← flt; let p ← v3; let x ← v3
+      match bhjmCylinder 200 f (d, h) p x with
+      | some v => pure (out v)
+      | none => pure "none"
+  | "cylmask" => do
+      let d ← flt; let h ← flt; let x ← v3
+      let r0 := d / 2.0
+      let m := cylMasks (h / 2.0 / r0) (Float.sqrt (x.x * x.x + x.y * x.y) / r0) (x.z / r0)
+      pure s!"{m.inside} {m.onEdge}"
   | t => throw s!"unknown kern command {t}"
 
 def step (line : String) : String :=
